@@ -575,3 +575,38 @@ func FD() []*Program {
 	out = append(out, F6(2, 7)...)
 	return out
 }
+
+// FH: user types whose base names equal identifiers the generator hard-codes
+// (eg, ctx, ch, zero, err, errgroup) in async injectors with an error result.
+func FH() []*Program {
+	var out []*Program
+	for _, n := range []string{"Eg", "Ctx", "Ch", "Zero", "Err", "Errgroup", "Context", "Kessoku"} {
+		out = append(out, &Program{Family: "FH", Desc: "type named " + n + " in an async injector", Types: []string{n, "A", "B", "R"},
+			Decls: []Decl{named("InitR", "R", "R:A,B,"+n, "A:!ae", "B:"+n+"!a", n+":!e")}})
+	}
+	// Async + Struct expansion (assignment to predeclared variables)
+	out = append(out, &Program{Family: "FH", Desc: "struct expansion consumed across goroutines", Types: typeNames(5), Structs: map[string][]string{"S0": {"F0 *T1", "F1 *T2"}}, Decls: []Decl{{
+		Name: "InitP", Request: "*T0", Provs: []Prov{
+			func() Prov { p := fn("NewS0", nil, []string{"*S0"}, false); p.Async = true; return p }(),
+			{Kind: KStruct, Struct: "*S0", Fields: []string{"F0", "F1"}, FTypes: []string{"*T1", "*T2"}},
+			func() Prov { p := fn("NewT3", []string{"*T1"}, []string{"*T3"}, false); p.Async = true; return p }(),
+			func() Prov { p := fn("NewT4", []string{"*T2"}, []string{"*T4"}, false); p.Async = true; return p }(),
+			fn("NewT0", []string{"*T3", "*T4"}, []string{"*T0"}, false),
+		}}}})
+	// two files of one package whose outputs need different imports
+	out = append(out, &Program{Family: "FH", Desc: "two files needing different imports", Types: typeNames(2), Files: [][]int{{0}, {1}},
+		ExtraImports: []string{`"bytes"`, `"strings"`},
+		Decls: []Decl{
+			{Name: "InitP", Request: "*T0", Provs: []Prov{fn("NewT0", []string{"*strings.Builder"}, []string{"*T0"}, false)}},
+			{Name: "InitQ", Request: "*T1", Provs: []Prov{fn("NewT1", []string{"*bytes.Buffer"}, []string{"*T1"}, false)}}}})
+	out = append(out, &Program{Family: "FH", Desc: "two files needing different imports, reversed", Types: typeNames(2), Files: [][]int{{0}, {1}},
+		ExtraImports: []string{`"bytes"`, `"strings"`},
+		Decls: []Decl{
+			{Name: "InitQ", Request: "*T1", Provs: []Prov{fn("NewT1", []string{"*bytes.Buffer"}, []string{"*T1"}, false)}},
+			{Name: "InitP", Request: "*T0", Provs: []Prov{fn("NewT0", []string{"*strings.Builder", "*bytes.Buffer"}, []string{"*T0"}, true)}}}})
+	// two files of one package, each with an async injector and different imports
+	out = append(out, &Program{Family: "FH", Desc: "two files, async injectors", Types: typeNames(3), Files: [][]int{{0}, {1}}, Decls: []Decl{
+		coreDecl("InitP", [][]int{{1, 2}, {}, {}}, 0b110, 0b010, -1, 0),
+		coreDecl("InitQ", [][]int{{1, 2}, {}, {}}, 0b110, 0b000, -1, 0)}})
+	return out
+}
